@@ -50,6 +50,8 @@ const Prelude = `(set-option :produce-models true)
 (assert (forall ((s Str)) (! (= (strdecode (strcode s)) s) :pattern ((strcode s)))))
 (assert (forall ((e (Array Loc Int)) (l Loc) (n Int)) (! (=> (>= n 0) (= (slen (strOf e l n)) n)) :pattern ((strOf e l n)))))
 (assert (forall ((s Str) (lo Int) (hi Int)) (! (=> (and (<= 0 lo) (<= lo hi) (<= hi (slen s))) (= (slen (str.sub s lo hi)) (- hi lo))) :pattern ((str.sub s lo hi)))))
+(define-fun lref ((l Loc)) Int (l-ref l))
+(define-fun lidx ((l Loc)) Int (l-idx l))
 ; element location used inside quantified contract clauses (keeps arithmetic out of the triggers)
 (declare-fun elt (Loc Int) Loc)
 (assert (forall ((l Loc) (i Int)) (! (= (elt l i) (mk-loc (l-ref l) (+ (l-idx l) i))) :pattern ((elt l i)))))
@@ -208,7 +210,7 @@ func (e *Engine) Discharge(obls []*Obligation, par int) {
 	declCache := map[string]string{}
 	var declMu sync.Mutex
 	declsFor := func(o *Obligation) string {
-		pp := ""
+		pp := o.PkgPath
 		if o.fs != nil && o.fs.fn != nil && o.fs.fn.Pkg != nil {
 			pp = o.fs.fn.Pkg.Pkg.Path()
 		}
@@ -310,6 +312,34 @@ func (e *Engine) Discharge(obls []*Obligation, par int) {
 	}
 	close(ch)
 	wg.Wait()
+}
+
+// RawLemma is a lemma about spec functions stated directly in SMT-LIB (used for lemmas about the
+// schema-derived reference functions, whose arguments are flattened values).
+type RawLemma struct {
+	Pkg   string // package whose reference functions the lemma is about
+	Name  string
+	Decls []string // (declare-const ...) lines
+	Hyps  []string // hypotheses (asserted)
+	Goal  string
+}
+
+// RawLemmaObligations turns the registered raw lemmas into standalone obligations.
+func (e *Engine) RawLemmaObligations(pkg string) []*Obligation {
+	var out []*Obligation
+	for _, l := range e.RawLemmas {
+		if l.Pkg != pkg {
+			continue
+		}
+		d := &fnState{e: e, declared: map[string]bool{}, cellSort: map[string]string{}, notes: map[string]bool{}, strLits: map[string]string{}, sites: map[string]int{}}
+		d.log = append(d.log, l.Decls...)
+		for _, h := range l.Hyps {
+			d.log = append(d.log, "(assert "+h+")")
+		}
+		out = append(out, &Obligation{ID: pkg + "/lemma/" + l.Name, Func: pkg + "/lemma", Class: "LEMMA", Label: l.Name, Site: l.Name,
+			Goal: l.Goal, Reach: "true", prefix: len(d.log), Expected: "unsat", fs: d, PkgPath: l.Pkg})
+	}
+	return out
 }
 
 // LemmaObligations turns `lemma` declarations into standalone obligations.
